@@ -70,6 +70,11 @@ func Catalogue() map[string]Script {
 		mk("c02:lookup-then-sibling-write-fails", 4, 7, res(0, 11), res(1, 12), start(0), start(1), whold(0),
 			hold(0, 100), werr(1), rgo, rel(0))
 		mk("c02:lookup-then-close", 4, 7, res(0, 11), start(0), whold(0), hold(0, 100), cls, rgo, rel(0))
+		// two (three) replies arrive in one segment: one Read may return more than one frame
+		pair := func(c, t, c2, t2 int) Action { return Action{K: AFeedPair, C: c, Tag: t, C2: c2, Tag2: t2} }
+		mk("c02:two-replies-in-one-segment", 4, 7, res(0, 11), res(1, 12), start(0), start(1), wok(0), wok(1), pair(0, 100, 1, 101))
+		mk("c02:two-replies-in-one-segment-before-wait", 4, 7, res(0, 11), res(1, 12), res(2, 13), start(0), start(1), start(2), whold(0), whold(1), wok(2),
+			pair(1, 101, 0, 100), rel(0), rel(1), reply(2, 102))
 		// the last bytes of the reply come back from Read together with EOF (TLS close_notify behind the data)
 		mk("c02:reply-in-two-pieces", 4, 7, res(0, 11), res(1, 12), start(0), start(1), wok(0), wok(1),
 			Action{K: AFeedSplitReply, C: 0, Tag: 100}, Action{K: AFeedSplitReply, C: 1, Tag: 101})
@@ -157,7 +162,7 @@ func RandomNext(r *hx.RNG, focus string, maxSteps int) (Script, func(v *View) *A
 			if w == nil {
 				w = []int{10, 2, 12, 12, 4, 16, 3, 3, 2, 5, 1, 1}
 			}
-			w = append(append([]int{}, w...), 2, 3, 2, 1, 3, 3) // … reader parked inside Read; runt datagram (UDP only), parked reader: hold / go, reply+EOF, reply in two pieces (TCP only)
+			w = append(append([]int{}, w...), 2, 3, 2, 1, 3, 3, 3) // … reader parked inside Read, two replies in one segment; runt datagram (UDP only), parked reader: hold / go, reply+EOF, reply in two pieces (TCP only)
 			tot := 0
 			for _, x := range w {
 				tot += x
@@ -217,6 +222,9 @@ func RandomNext(r *hx.RNG, focus string, maxSteps int) (Script, func(v *View) *A
 			case 17:
 				tag++
 				a = Action{K: AFeedReadReply, C: c, Tag: tag}
+			case 18:
+				tag += 2
+				a = Action{K: AFeedPair, C: c, Tag: tag - 1, Tag2: tag}
 			}
 			// reserve picks the next unused call id; the others pick among existing ones
 			if a.K != AReserve && a.K != AFeedStray && a.K != AFeedErr && a.K != AClose && a.K != ASetQid && a.K != AExpire && a.K != ARunt && a.K != AReaderGo {
@@ -224,6 +232,9 @@ func RandomNext(r *hx.RNG, focus string, maxSteps int) (Script, func(v *View) *A
 					continue
 				}
 				a.C = r.Intn(nextCall)
+				if a.K == AFeedPair {
+					a.C2 = r.Intn(nextCall)
+				}
 			}
 			if v.Applicable(a) {
 				if a.K == AReserve {
